@@ -117,7 +117,11 @@ class State:
         return ("temp", tid)
 
     # ---------------------------------------------------------------- individuals
+    MAX_NODES = 64
+
     def new_node(self, live, origin, fresh=False):
+        if len(self.nodes) >= self.MAX_NODES:
+            raise Undecided("more than %d individuals on one path (unbounded unrolling?)" % self.MAX_NODES)
         nid = "n%d" % self.counter
         self.counter += 1
         r = NodeRec(nid, live, origin, fresh)
@@ -301,34 +305,66 @@ class State:
                         raise Infeasible("J3 cycle via " + fld)
                     seen.add(c)
                     c = self.h0_link(c, fld)
-        # ancestor facts
-        changed = True
-        while changed:
-            changed = False
-            for (a, b), val in list(self.anc.items()):
-                if a == b and val:
-                    raise Infeasible("anc reflexive")
-                pb = self.h0_link(b, "parent") if b in self.nodes else "unk"
-                if val:
-                    if self.anc.get((b, a)):
-                        raise Infeasible("anc symmetric")
-                    if pb is None:
-                        raise Infeasible("anc of a root")
-                    if pb != "unk" and pb != a:
-                        changed |= self._anc_set(a, pb, True)
-                    for (c, d), v2 in list(self.anc.items()):
-                        if v2 and c == b:
-                            changed |= self._anc_set(a, d, True)
-                else:
-                    if pb not in ("unk", None):
-                        if pb == a:
-                            raise Infeasible("anc false but parent")
-                        changed |= self._anc_set(a, pb, False)
-            # known parent edges are ancestor facts
-            for b in ids:
-                pb = self.h0_link(b, "parent")
+        # ancestor facts: incremental worklist closure (asymmetry, transitivity, agreement with materialised parent edges)
+        for b in ids:
+            pb = self.h0_link(b, "parent")
+            if pb not in ("unk", None):
+                self._anc_set(pb, b, True)
+        if not self.anc:
+            return
+        seen = self.meta.get("anc_seen", {})
+        work = []
+        for k, val in self.anc.items():
+            pb = self.h0_link(k[1], "parent") if k[1] in self.nodes else "unk"
+            if seen.get(k) != (val, pb):
+                work.append(k)
+        if not work:
+            return
+        seen = dict(seen)
+        frm, to = {}, {}
+        for (a, b2), v in self.anc.items():
+            if v:
+                frm.setdefault(a, set()).add(b2)
+                to.setdefault(b2, set()).add(a)
+        guard = 0
+        while work:
+            guard += 1
+            if guard > 100000:
+                raise Undecided("ancestor closure too large")
+            a, b = work.pop()
+            val = self.anc[(a, b)]
+            if a not in self.nodes or b not in self.nodes:
+                continue
+            if a == b and val:
+                raise Infeasible("anc reflexive")
+            pb = self.h0_link(b, "parent")
+            seen[(a, b)] = (val, pb)
+            new = []
+            if val:
+                if self.anc.get((b, a)):
+                    raise Infeasible("anc symmetric")
+                if pb is None:
+                    raise Infeasible("anc of a root")
+                if pb != "unk" and pb != a:
+                    new.append(((a, pb), True))
+                for d in list(frm.get(b, ())):
+                    new.append(((a, d), True))
+                for c in list(to.get(a, ())):
+                    new.append(((c, b), True))
+            else:
                 if pb not in ("unk", None):
-                    changed |= self._anc_set(pb, b, True)
+                    if pb == a:
+                        raise Infeasible("anc false but parent")
+                    new.append(((a, pb), False))
+            for (k, v) in new:
+                if k[0] == k[1] and v:
+                    raise Infeasible("anc reflexive")
+                if self._anc_set(k[0], k[1], v):
+                    if v:
+                        frm.setdefault(k[0], set()).add(k[1])
+                        to.setdefault(k[1], set()).add(k[0])
+                    work.append(k)
+        self.meta["anc_seen"] = seen
 
     def _anc_set(self, a, b, val):
         cur = self.anc.get((a, b))
